@@ -606,7 +606,7 @@ def rule_factory_radius(chk, prog):
   """Every way the library hands out a Grid must carry the caller's radius into it: a factory that accepts `radius` and drops it returns a
   unit-sphere grid whose metric factors are off by powers of the radius."""
   import re
-  rule = 'C02.10-factories-forward-the-radius'
+  rule = 'C02.10-factories-forward-their-options'
   g = prog.cls(f'{SH}.Grid')
   n = 0
   for name, fi in sorted(g.methods.items()):
@@ -615,11 +615,14 @@ def rule_factory_radius(chk, prog):
     site, loc = f'{SH}.Grid.{name}', (fi.file, fi.lineno)
     ev = sym.Evaluator(prog, sym.Options(opaque={f'{SH}.Grid.construct'} if re.fullmatch(r'(TL|T)\d+', name) else set()))
     v, _, _ = ev.run(fi)
-    if 'radius' in fi.param_names():
-      got = util.field(v, 'radius') if v.k == 'obj' else (util.call_kwargs(v).get('radius') if v.k == 'call' else None)
-      chk.check(got is not None and got == Term('sym', 'radius'), rule, f'{site}: the `radius` argument becomes the radius of the constructed Grid', sym.show(got) if got is not None else 'not passed', loc,
-                'radius=radius', sym.show(got) if got is not None else 'default (None → 1.0)')
-      n += 1
+    fields = {f_ for f_, _, _ in g.fields}
+    shared = [p_ for p_ in fi.param_names() if p_ in fields]
+    if shared:
+      for p_ in shared:
+        got = util.field(v, p_) if v.k == 'obj' else (util.call_kwargs(v).get(p_) if v.k == 'call' else None)
+        chk.check(got is not None and got == Term('sym', p_), rule, f'{site}: the `{p_}` argument becomes the `{p_}` of the constructed Grid' + (' (a dropped radius silently yields a unit sphere)' if p_ == 'radius' else ''),
+                  sym.show(got) if got is not None else 'not passed', loc, f'{p_}={p_}', sym.show(got) if got is not None else 'field default')
+        n += 1
     elif re.fullmatch(r'(TL|T)\d+', name):
       ok = v.k == 'call' and util.callee_name(v) == 'construct' and any(k_ == '**' for k_, _ in v.a[2])
       chk.check(ok, rule, f'{site}: forwards its keyword options (radius among them) to construct', sym.show(v, maxdepth=2)[:120], loc)
